@@ -75,9 +75,16 @@ def run_real(scn):
         P.write_project(root, scn["project"])
         with open(os.path.join(root, "probe.py"), "w") as f:
             f.write(PROBE)
+        if scn.get("condout_symlink"):
+            # cond-out kept on another disk: a symbolic link in the project root (the values the task is given - and the ones the
+            # library reports - are spelled through the project, not through the link's target)
+            os.makedirs(os.path.join(d, "scratch_disk", "out"))
+            if os.path.isdir(os.path.join(root, "cond-out")):
+                shutil.rmtree(os.path.join(root, "cond-out"))
+            os.symlink(os.path.join(d, "scratch_disk", "out"), os.path.join(root, "cond-out"))
         r = C.fork_map(lambda _: CLI.run_cli(root, scn["argv"], clock=scn.get("clock")), [0], nproc=1)[0]
         probes = []
-        for dp, dn, fn in os.walk(os.path.join(root, "cond-out")):
+        for dp, dn, fn in os.walk(os.path.join(root, "cond-out"), followlinks=True):
             if "probe.json" in fn:
                 with open(os.path.join(dp, "probe.json")) as f:
                     rec = json.load(f)
@@ -139,6 +146,7 @@ def main(tier):
                 depth = len([x for x in t["pkg"].split("/") if x])
                 t["run"] = "/venv/bin/python " + "../" * depth + "probe.py"
         scn["clock"] = None
+        scn["condout_symlink"] = k % 4 == 3
         bscn.append(scn)
     bres = C.fork_map(run_real, bscn, timeout=900)
     ltraces = []
